@@ -31,6 +31,7 @@ type tierCfg struct {
 	MaxPaths int      `json:"maxpaths"` // per run
 	MaxSteps int      `json:"maxsteps"`
 	QTimeout int      `json:"qtimeout"` // ms
+	Solver   string   `json:"solver"`   // back end for this tier's runs ("" = z3 4.8.12)
 }
 
 type harnessGroup struct {
@@ -58,7 +59,8 @@ type oneRun struct {
 	exit    int
 	stderr  string
 	resFile string
-	solver  string // "" = default back end; otherwise a cross-check run on another solver
+	solver  string // "" = default back end
+	cross   bool   // a cross-check run on the second solver
 }
 
 func verifRoot() string {
@@ -142,7 +144,7 @@ func cmdCheck(args []string) int {
 				continue
 			}
 			for _, p := range cfg.Params {
-				runs = append(runs, &oneRun{group: g, harness: h, params: p, cfg: cfg})
+				runs = append(runs, &oneRun{group: g, harness: h, params: p, cfg: cfg, solver: cfg.Solver})
 			}
 		}
 	}
@@ -164,7 +166,7 @@ func cmdCheck(args []string) int {
 					continue
 				}
 				for _, p := range cfg.Params {
-					runs = append(runs, &oneRun{group: g, harness: h, params: p, cfg: cfg, solver: *crossSolver})
+					runs = append(runs, &oneRun{group: g, harness: h, params: p, cfg: cfg, solver: *crossSolver, cross: true})
 				}
 			}
 		}
@@ -423,13 +425,13 @@ func cmdCheck(args []string) int {
 		}
 		main := map[string]*oneRun{}
 		for _, r := range runs {
-			if r.solver == "" {
+			if !r.cross {
 				main[r.harness+"|"+r.params+"|"+fmt.Sprint(r.cfg.Timeout, r.cfg.MaxPaths)] = r
 			}
 		}
 		nCross, compared, agreed := 0, 0, 0
 		for _, r := range runs {
-			if r.solver == "" {
+			if !r.cross {
 				continue
 			}
 			nCross++
@@ -742,7 +744,7 @@ func buildEvidence(prop, tier string, seed int, runs []*oneRun, pi propIndex, re
 			"name": r.harness, "package": r.group.Pkg, "params": r.params, "status": r.res.Status, "bounds": r.group.Bounds, "outside_the_claim": r.group.Out,
 			"paths": r.res.Paths, "paths_ended": r.res.PathsEnded, "ssa_instructions": r.res.Steps, "solver_queries": r.res.SolverQueries,
 			"assertion_queries": r.res.Asserts, "assertions_unsat": r.res.AssertsHeld, "assert_labels": r.res.AssertLabels, "covers_reached": r.res.Covers,
-			"solver_time_s": r.res.SolverTimeS, "wall_s": r.res.WallS, "violations": len(r.res.Violations),
+			"solver_time_s": r.res.SolverTimeS, "wall_s": r.res.WallS, "violations": len(r.res.Violations), "solver": solverName(r.solver), "cross_check_run": r.cross,
 		})
 	}
 	if len(samples) == 0 {
@@ -777,7 +779,7 @@ func buildEvidence(prop, tier string, seed int, runs []*oneRun, pi propIndex, re
 		"explanation":                   "states = symbolic paths of the real go/ssa explored (each path stands for all inputs satisfying its path condition); transitions = SSA instructions interpreted; obligations = assertion queries pc∧¬assert sent to the solver, discharged = those answered unsat; traces_validated_against_impl = solver models replayed natively against the real build",
 		"solver_queries":                queries,
 		"solver_time_s":                 solverS,
-		"solver":                        "z3 4.8.12 (one incremental process per harness)",
+		"solver":                        "one incremental SMT process per run; back end per run under harnesses[].solver (default z3 4.8.12)",
 		"functions_encoded":             keys(funcs),
 		"stdlib_interpreted_n":          len(stdf),
 		"models_and_stubs":              keys(modelsU),
@@ -921,4 +923,16 @@ func replayOne(repo, root, outDir, prop string, pi propIndex, file string) int {
 	}
 	fmt.Fprintln(os.Stderr, "the recorded counterexample does not reproduce on the current tree")
 	return 0
+}
+
+func solverName(k string) string {
+	switch k {
+	case "", "z3":
+		return "z3 4.8.12"
+	case "z3-new":
+		return "z3 5.1.0 (z3-new)"
+	case "cvc5":
+		return "cvc5 1.0.x --incremental"
+	}
+	return k
 }
